@@ -70,6 +70,7 @@ void eb_curve_init(void) {
 		ctx->eb_ptr[i] = &(ctx->eb_pre[i]);
 	}
 #endif
+	ctx->eb_id = 0;
 	fb_zero(ctx->eb_g.x);
 	fb_zero(ctx->eb_g.y);
 	fb_zero(ctx->eb_g.z);
